@@ -271,6 +271,30 @@ def run(chk, w):
                               "than 48 bytes of answers can be pending")
     chk.floor("budget_releases", nrel, 2)
 
+    # ---- UPD: every received message is offered to the node-state update (answer matching, expiry of old requests, retry of held messages)
+    chk.rule("C03-UPD", "in the splitter every path from the allocation of a message to its dispatch passes the node-state update: expiry and the retry of held "
+                        "messages are evaluated for every uplink message, whatever its type")
+    from . import c02 as _c02
+    try:
+        _D, _disp, _asm, _split, _readers = _c02.receiver_roles(w)
+        upd = {n for n in R.subbers if any(c.callee == n for c in _split.calls())}
+        if not upd:
+            upd = {c.callee for c in _split.calls() if c.callee in P.functions and rules.call_reaches(P, c, set(R.subbers))}
+        nupd = 0
+        for m in _split.calls("malloc"):
+            nupd += 1
+            def is_disp(x):
+                return x.op == "call" and x.callee == _disp.name
+            pth = rules.exists_path(_split, m, is_disp, lambda x: x.op == "call" and x.callee in upd)
+            if pth:
+                chk.violation("C03-UPD", _split.name, "update-skipped", m.loc(), "a message can be dispatched without the node-state update having run for it (%s): for such messages no expired "
+                              "request is removed and no held message is retried, so held traffic stays stranded while only these messages arrive" % rules.path_text(pth))
+            else:
+                chk.ok("C03-UPD", 1, {"allocation": m.loc(), "update": sorted(upd)})
+        chk.floor("split_allocations", nupd, 1)
+    except AnalysisBroken as e:
+        chk.abstain("C03-UPD", "receiver roles not identified: %s" % e, "-")
+
     fifo_rules(chk, w, R, "C03-FIFO")
 
     # ---- POP: a deferred message leaves the queue only on the branch that transmits it
